@@ -65,7 +65,7 @@ NONVACUITY = ["cases_judged", "user_statements_matched", "gsub_compared_nonempty
 HAND_TAGS = ["kern", "mark", "mkmk", "curs"]
 # tags a listed writer generates; a hand-written block of one of them is subject to the
 # skip / append / marker rules (abvm and blwm: hand-written without marker only)
-OWNED_TAGS = HAND_TAGS + ["abvm", "blwm"]
+OWNED_TAGS = HAND_TAGS + ["abvm", "blwm", "dist"]
 
 
 class HarnessGsubWriter(BaseFeatureWriter):
@@ -436,7 +436,7 @@ def _run(case):
             # U then generated, generated in a block after the user's blocks
             if Ot[:len(U)] != U:
                 viol("append_changed_user_block", key=key, first_difference=_first_diff(U, Ot))
-            elif len(Ot) == len(U) and tag in ("abvm", "blwm"):
+            elif len(Ot) == len(U) and tag in ("abvm", "blwm", "dist"):
                 # whether the mark writer has above-/below-base rules to write depends on the
                 # declared scripts and the anchors: 'has something to write' is not guaranteed
                 bump("append_indic_nothing_generated")
